@@ -207,6 +207,66 @@ def f_final(delta, E, contact_point=0, baseline=0):
     return out + baseline
 
 
+def f_other_order(delta, E, baseline=0, contact_point=0):
+    """parameters after delta in another order than parameter_keys"""
+    root = contact_point - delta
+    out = np.zeros_like(delta)
+    out[root > 0] = E * root[root > 0] ** 1.5
+    return out + baseline
+
+
+def signature_order_cases(run):
+    """the wrappers hand the parameters to the user's function BY NAME: a
+    function whose signature lists them in another order than parameter_keys
+    (only a warning at registration) is evaluated correctly"""
+    from nanite import model
+    from nanite.model.residuals import compute_contact_point_weights as cw
+    with warnings.catch_warnings():
+        warnings.simplefilter("ignore")
+        md = model.register_model(make_module("nv_order", f_other_order))
+    try:
+        for orient in ("desc", "asc"):
+            x = np.linspace(1e-6, -1e-6, 11)
+            if orient == "asc":
+                x = x[::-1].copy()
+            y = np.linspace(-1e-9, 2e-9, 11)
+            p = md.get_parameter_defaults()
+            p["E"].set(value=2.5)
+            p["contact_point"].set(value=2e-7)
+            p["baseline"].set(value=3e-10)
+            run.case({"signature-order": orient}, kind="signature-order")
+            key = f"signature-order:{orient}"
+            try:
+                out = np.asarray(md.model(p, x))
+                res = np.asarray(md.residual(p, x, y, 5e-7))
+            except BaseException as e:
+                run.failing(SITE, key + "|raised", f"raised "
+                            f"{type(e).__name__}: {e}",
+                            payload={"kind": "rerun"})
+                continue
+            asc = x[0] < x[-1]
+            inner = f_other_order((x[::-1] if asc else x).copy(), E=2.5,
+                                  contact_point=2e-7, baseline=3e-10)
+            want = inner[::-1] if asc else inner
+            if out.tobytes() != np.asarray(want).tobytes():
+                run.failing(SITE, key + "|model", f"{orient}: model() of a "
+                            "user model whose function lists (baseline, "
+                            "contact_point) in another order than "
+                            "parameter_keys differs from the function "
+                            "evaluated by name (max "
+                            f"{float(np.max(np.abs(out - want))):.3g})",
+                            payload={"kind": "rerun"},
+                            theorem="C13_wrapper_calls_on_seen")
+            wres = (y - want) * cw(2e-7, x, 5e-7)
+            if res.tobytes() != wres.tobytes():
+                run.failing(SITE, key + "|residual", f"{orient}: default "
+                            "residual is not (data - model function) * "
+                            "weights", payload={"kind": "rerun"},
+                            theorem="C13_default_residual")
+    finally:
+        model.deregister_model(md)
+
+
 def reload_cases(run):
     """a user model is registered, then another module with the SAME key
     (the edited model) is registered without deregistering first, then the
@@ -449,6 +509,7 @@ def check(run):
     check_wrapper(run)
     reload_cases(run)
     reuse_buffer_cases(run)
+    signature_order_cases(run)
     check_laws(run)
     run.rule = ("harness-registered order-sensitive / asserting / ancillary /"
                 " expression models on abscissae of both orientations, sizes "
